@@ -296,6 +296,7 @@ func checkC12(c *km.Ctx) {
 		}
 	}
 	walk(flag)
+	checkSecretComparison(c, s)
 
 	// ---- R-C12-1
 	prCode := primErrNil("code verified", RS+"JWTClaims", 0)
@@ -990,5 +991,135 @@ func checkPublishedJWK(c *km.Ctx, rule string) {
 	}
 	if n == 0 {
 		c.R.AnchorLost(rule, "JSONWebKey built by the key-set endpoint")
+	}
+	// every verification key the server holds is in the document: an iteration of the loop over the keys either
+	// appends the key or ends the request with an error - it never goes on to the next key without appending (a
+	// filter here and a signer whose key it drops give tokens nobody can verify)
+	nLoop := 0
+	for _, f := range callsWithNewHelpersFuncs(c, fn, 2) {
+		var appendBlk *ssa.BasicBlock
+		km.Instrs(f, func(in ssa.Instruction) {
+			st, ok := in.(*ssa.Store)
+			if !ok {
+				return
+			}
+			fa, ok := st.Addr.(*ssa.FieldAddr)
+			if !ok || fieldNameOf(fa) != "Keys" || !strings.HasSuffix(km.NamedTypeOf(fa.X.Type()), ".JSONWebKeySet") {
+				return
+			}
+			if cl, isC := km.Unwrap(st.Val).(*ssa.Call); isC {
+				if b, isB := cl.Common().Value.(*ssa.Builtin); isB && b.Name() == "append" {
+					appendBlk = in.Block()
+				}
+			}
+		})
+		if appendBlk == nil {
+			continue
+		}
+		for h := appendBlk.Idom(); h != nil; h = h.Idom() {
+			if h.Comment != "rangeindex.loop" || len(h.Succs) != 2 || !km.ReachableBlocks(appendBlk, nil)[h] {
+				continue
+			}
+			overKeys := false
+			for blk := range km.ReachableBlocks(h.Succs[0], map[*ssa.BasicBlock]bool{h: true, h.Succs[1]: true}) {
+				for _, in := range blk.Instrs {
+					if ia, ok := in.(*ssa.IndexAddr); ok && mentionsField(ia.X, "KeymasterPublicKeys") {
+						overKeys = true
+					}
+				}
+			}
+			if !overKeys {
+				continue
+			}
+			nLoop++
+			skip := h.Succs[0] != appendBlk && km.ReachableBlocks(h.Succs[0], map[*ssa.BasicBlock]bool{appendBlk: true, h.Succs[1]: true})[h]
+			c.R.Add(rule, km.FuncName(f), "published key set: no key is skipped", posOf(c, h.Instrs[len(h.Instrs)-1]), "every trip round the loop over KeymasterPublicKeys passes the append to the key set (or ends the request)", sprintf("a trip can reach the next key without appending=%v", skip), !skip)
+			break
+		}
+	}
+	if nLoop == 0 {
+		c.R.AnchorLost(rule, "loop over KeymasterPublicKeys that fills the published key set")
+	}
+}
+
+// checkSecretComparison: "proves it is the client ... by the client secret": the comparison says yes only when the
+// submitted string and the configured one are the same string - compared as they are (the handler's "a secret was
+// submitted" guard looks at the raw value: a comparison that trims or folds first makes a blank submission equal
+// to the empty secret of a secret-less client).
+func checkSecretComparison(c *km.Ctx, s *km.Sem) {
+	fn := c.MustFunc("R-C12-2", "cmd/keymasterd", "(*OpenIDConnectClientConfig).ValidClientSecret")
+	if fn == nil {
+		return
+	}
+	par := km.ParamAt(fn, 1)
+	raw := func(v ssa.Value) (isPar, isCfg bool) {
+		v = km.Unwrap(v)
+		if cv, ok := v.(*ssa.Convert); ok {
+			v = km.Unwrap(cv.X)
+		}
+		if par != nil && v == ssa.Value(par) {
+			return true, false
+		}
+		if fieldLoadOf(v, "", "ClientSecret") {
+			return false, true
+		}
+		return false, false
+	}
+	pair := func(a, b ssa.Value) bool {
+		ap, ac := raw(a)
+		bp, bc := raw(b)
+		return (ap && bc) || (ac && bp)
+	}
+	same := km.Prim{Name: "submitted == configured", Direct: func(f km.Fact) bool {
+		if f.Op == token.EQL && f.Y != nil {
+			if pair(f.X, f.Y) {
+				return true
+			}
+			if cl, ok := km.Unwrap(f.X).(*ssa.Call); ok && km.CalleeFull(cl.Common()) == "crypto/subtle.ConstantTimeCompare" {
+				if one, isC := km.ConstInt(f.Y); isC && one == 1 {
+					return pair(cl.Common().Args[0], cl.Common().Args[1])
+				}
+			}
+		}
+		if f.Op == token.ILLEGAL && f.Pol {
+			if cl, ok := km.Unwrap(f.X).(*ssa.Call); ok {
+				switch km.CalleeFull(cl.Common()) {
+				case "bytes.Equal", "crypto/hmac.Equal":
+					return pair(cl.Common().Args[0], cl.Common().Args[1])
+				}
+			}
+		}
+		return false
+	}}
+	n := 0
+	for _, rc := range s.RetCases(fn) {
+		v := km.Unwrap(rc.Results[0])
+		if km.ValStr(v) == "false" {
+			continue
+		}
+		bad := ""
+		nTrue := 0
+		for _, k := range rc.State {
+			kk, may := s.TrueFacts(k, v)
+			if !may {
+				continue
+			}
+			nTrue++
+			if !s.Holds(kk, same) {
+				bad = clipS(km.DNF{kk}.String(), 200)
+			}
+		}
+		if nTrue == 0 {
+			continue
+		}
+		n++
+		found := sprintf("%d path(s) that can say yes, each under the equality of the two strings as they are", nTrue)
+		if bad != "" {
+			found = "yes without that equality: " + bad
+		}
+		c.R.Add("R-C12-2", km.FuncName(fn), "secret comparison says yes", posOf(c, rc.Ret), "only when the submitted secret equals the configured one, both unmodified", found, bad == "")
+	}
+	if n == 0 {
+		c.R.AnchorLost("R-C12-2", "possibly-true return of ValidClientSecret")
 	}
 }
